@@ -326,6 +326,27 @@ func OpenSQLiteFaulty(path string, opts ...ebusqlite.Option) (*ebusqlite.SQLiteS
 	return st, plan, err
 }
 
+// OpenSQLiteFaultyArmed is OpenSQLiteFaulty with the plan configured by setup
+// and armed before the store is opened, so that the faults land in New itself
+// (pragmas, schema migration, statement preparation).
+func OpenSQLiteFaultyArmed(path string, setup func(*FaultPlan), opts ...ebusqlite.Option) (*ebusqlite.SQLiteStore, *FaultPlan, error) {
+	regOnce.Do(func() { sql.Register("sqlite-fault", faultDriver{inner: &msqlite.Driver{}}) })
+	plan := &FaultPlan{}
+	setup(plan)
+	plan.Arm(true)
+	id := "p" + itoa(planSeq.Add(1))
+	faultPlans.Store(id, plan)
+	openMu.Lock()
+	restore := ebusqlite.SetDBOpenerForVerification(func(_ string, dsn string) (*sql.DB, error) {
+		return sql.Open("sqlite-fault", id+"|"+dsn)
+	})
+	st, err := ebusqlite.New(path, append(VariantOptions(), opts...)...)
+	restore()
+	openMu.Unlock()
+	plan.Arm(false)
+	return st, plan, err
+}
+
 func itoa(n int64) string {
 	if n == 0 {
 		return "0"
